@@ -465,6 +465,14 @@ def r2_overheads(ck, cx):
                         and rp_txt and rp_txt in U(e._sub.left):
                     # the bytes returned by the first read are called read_min in the messages
                     peeks.setdefault(cn, set()).add(U(e._sub.left).replace(rp_txt, 'read_min'))
+                elif e.kind == 'cond' and isinstance(e._sub, ast.Compare) and len(e._sub.ops) == 1 and cx.ce.try_ev(e._sub.comparators[0], f3.mod, tm) == 0x80 \
+                        and rp_txt and cn in names.values() and isinstance(cx.ce.try_ev(e._sub.left, f3.mod, tm, default=None), int):
+                    # for a framing whose layout is known the exception test looks at the reply, on every path: a constant stand-in
+                    # ("unknown, not an error") makes some exception replies be read with the length of a normal reply
+                    ck.ob('R2', f3.qn, 'the exception test of _recv looks at the function code of the reply on every path [%s]' % cn, False,
+                          detail='fc-peek-constant %s' % cn, loc=cx.floc(f3, e.node),
+                          message='_recv compares the constant %s with 0x80 on a path of the %s branch instead of the function code it read: exception replies that take this path '
+                                  '(a hex digit A-F, a garbled byte) are waited for with the length of a normal reply' % (U(e._sub.left), cn))
     # the exception branch (function code >= 0x80): what is read after the first min_size bytes is the rest of an EXCEPTION frame,
     # i.e. _calculate_exception_length() - min_size -- the per-framer exception length decided above, ASCII doubling included
     nexc = 0
